@@ -23,8 +23,11 @@ Inductive failure : Type := FailNone | FailRead | FailSetBaud | FailWrite | Fail
 Record sport : Type := {
   sp_settings : settings;          (* what the device is currently set to *)
   sp_timeout : option N;           (* read timeout in nanoseconds (a Duration), None = never set *)
-  sp_fail : failure
+  sp_fail : failure;
+  sp_max_timeout : option N        (* the longest timeout (ns) the device accepts, None = any: a longer one is refused *)
 }.
+Definition timeout_accepted (p : sport) (t : N) : bool :=
+  match sp_max_timeout p with Some l => t <=? l | None => true end.
 
 Inductive perr : Type := PErr (at_call : failure).
 
@@ -42,11 +45,15 @@ Definition configure_port (p : sport) (timeout_ns : N) : result perr sport :=
       let p1 := {| sp_settings :=
                      {| s_baud := Baud19200; s_csize := Bits8; s_parity := ParityNone;
                         s_stop := Stop1; s_flow := FlowNone |};
-                   sp_timeout := sp_timeout p; sp_fail := sp_fail p |} in
+                   sp_timeout := sp_timeout p; sp_fail := sp_fail p;
+                   sp_max_timeout := sp_max_timeout p |} in
       match sp_fail p with
       | FailTimeout => Err (PErr FailTimeout)               (* set_timeout()? *)
-      | _ => Ok {| sp_settings := sp_settings p1; sp_timeout := Some timeout_ns;
-                   sp_fail := sp_fail p |}
+      | _ =>
+          if timeout_accepted p timeout_ns
+          then Ok {| sp_settings := sp_settings p1; sp_timeout := Some timeout_ns;
+                     sp_fail := sp_fail p; sp_max_timeout := sp_max_timeout p |}
+          else Err (PErr FailTimeout)                       (* set_timeout(too long)? *)
       end
   end.
 
